@@ -642,6 +642,14 @@ func constructedLocals(info *types.Info, body *ast.BlockStmt) map[types.Object]b
 // RuleLocks runs the analysis and reports. minAccesses is the number of guarded
 // accesses confirmed to exist (lower bound, anti-vacuity).
 func RuleLocks(r *Report, p *Prog, rules *LockRules, rule string, minAccesses int) *LockAnalysis {
+	// unexported methods extracted from a locked region (not in the table) are
+	// judged at their call sites, exactly like the inline code they came from
+	if ext, inferred := InferCallerHolds(p, rules); len(inferred) > 0 {
+		rules = ext
+		for _, name := range inferred {
+			r.Note("%s: %s is not in the lock table; it touches guarded state of its receiver without locking and is only ever called, so it is checked as a caller-holds helper at its call sites", rule, name)
+		}
+	}
 	a := &LockAnalysis{Prog: p, Rules: rules}
 	pk := p.Pkg(rules.Pkg)
 	if pk == nil {
